@@ -53,6 +53,137 @@ func sliceLitPlus(v ssa.Value) (elems []ssa.Value, tail ssa.Value, ok bool) {
 	return elems, call.Call.Args[1], true
 }
 
+// varargElems lists the values stored into the array behind a `[]T{…}` / variadic-argument slice.
+func varargElems(v ssa.Value) []ssa.Value {
+	sl, ok := v.(*ssa.Slice)
+	if !ok {
+		return nil
+	}
+	al, ok := sl.X.(*ssa.Alloc)
+	if !ok {
+		return nil
+	}
+	var out []ssa.Value
+	for _, ref := range an.Referrers(al) {
+		if ia, ok := ref.(*ssa.IndexAddr); ok {
+			for _, st := range an.StoresTo(ia) {
+				out = append(out, st.Val)
+			}
+		}
+	}
+	return out
+}
+
+// sliceLitPlusFV is sliceLitPlus through helpers: the value may be produced by a helper that appends the
+// static tail to its variadic parameter.
+func sliceLitPlusFV(x an.FV, stop func(*ssa.Function) bool) (elems []an.FV, tail an.FV, ok bool) {
+	x = x.Resolve(stop)
+	call, isCall := x.V.(*ssa.Call)
+	if !isCall || !an.IsBuiltinCall(call, "append") || len(call.Call.Args) != 2 {
+		return nil, an.FV{}, false
+	}
+	base := an.FV{V: call.Call.Args[0], F: x.F}.Resolve(stop)
+	sl, isSl := base.V.(*ssa.Slice)
+	if !isSl {
+		return nil, an.FV{}, false
+	}
+	al, isAl := sl.X.(*ssa.Alloc)
+	if !isAl {
+		return nil, an.FV{}, false
+	}
+	arr, isArr := al.Type().(*types.Pointer).Elem().Underlying().(*types.Array)
+	if !isArr {
+		return nil, an.FV{}, false
+	}
+	elems = make([]an.FV, arr.Len())
+	for _, ref := range an.Referrers(al) {
+		ia, isIA := ref.(*ssa.IndexAddr)
+		if !isIA {
+			continue
+		}
+		k, isK := ia.Index.(*ssa.Const)
+		if !isK {
+			return nil, an.FV{}, false
+		}
+		for _, st := range an.StoresTo(ia) {
+			elems[k.Int64()] = an.FV{V: st.Val, F: base.F}
+		}
+	}
+	for _, e := range elems {
+		if e.V == nil {
+			return nil, an.FV{}, false
+		}
+	}
+	return elems, an.FV{V: call.Call.Args[1], F: x.F}.Resolve(stop), true
+}
+
+// valuesFollowSortedKeys: fn(m) returns m[key] for key ranging over sortedKeys(m), in that order — either
+// appended in loop order or stored at the key's own index.
+func valuesFollowSortedKeys(fn *ssa.Function, sortedKeysFns map[*ssa.Function]bool) (bool, string) {
+	if len(fn.Params) != 1 {
+		return false, "computed by a function of a different shape"
+	}
+	m := ssa.Value(fn.Params[0])
+	found := false
+	var why string
+	an.Instrs(fn, func(in ssa.Instruction) {
+		lk, ok := in.(*ssa.Lookup)
+		if !ok || an.Strip(lk.X) != m {
+			return
+		}
+		ia, ok := an.Strip(lk.Index).(*ssa.IndexAddr)
+		if !ok {
+			why = "looked up with " + an.D().Of(lk.Index) + ", not with an element of the sorted key list"
+			return
+		}
+		kc, ok := an.Strip(ia.X).(*ssa.Call)
+		if !ok || !sortedKeysFns[an.Callee(kc)] || an.Strip(kc.Call.Args[0]) != m {
+			why = "looked up with elements of " + an.D().Of(ia.X) + ", not of the sorted key list of the same map"
+			return
+		}
+		for _, ref := range an.Referrers(lk) {
+			st, ok := ref.(*ssa.Store)
+			if !ok {
+				continue
+			}
+			dst, ok := st.Addr.(*ssa.IndexAddr)
+			if !ok {
+				continue
+			}
+			if al, isAl := dst.X.(*ssa.Alloc); isAl {
+				// the variadic array of an append in loop order
+				for _, r2 := range an.Referrers(al) {
+					if sl, ok := r2.(*ssa.Slice); ok {
+						for _, r3 := range an.Referrers(sl) {
+							if call, ok := r3.(*ssa.Call); ok && an.IsBuiltinCall(call, "append") && feedsReturn(fn, call) {
+								found = true
+							}
+						}
+					}
+				}
+				continue
+			}
+			// values[i] = m[keys[i]] with the same i
+			if dst.Index == ia.Index {
+				for _, ret := range an.Returns(fn) {
+					if an.Strip(ret.Results[0]) == an.Strip(dst.X) {
+						found = true
+					}
+				}
+			} else {
+				why = "stored at index " + an.D().Of(dst.Index) + " while the key is at index " + an.D().Of(ia.Index)
+			}
+		}
+	})
+	if found {
+		return true, ""
+	}
+	if why == "" {
+		why = "not collected as map[key] over the sorted key list"
+	}
+	return false, why
+}
+
 func c16(c *core.Ctx, r *core.Report) {
 	r.Explanation = "Decides label and sample discipline structurally: (R1) for each SummaryVec the label names at construction and the label values at every WithLabelValues site agree position by position (test↔name, stage↔stage, result↔result.String()), the static suffixes both derive from the same sorted key list of the same map, and nothing re-orders the keys afterwards; " +
 		"(R2) exactly one setup observation on every path of Setup, labelled from T.Failed() read after the recovered setup call; (R3) Reset resets every vector, precedes Setup in Run.Do, and every observation resolves its series through the vector at observation time (no observer cached across Reset); " +
@@ -69,13 +200,119 @@ func c16(c *core.Ctx, r *core.Report) {
 	testL, stageL, resultL := labelConst("TestNameLabel"), labelConst("StageLabel"), labelConst("ResultLabel")
 
 	names := map[string][]string{} // vec field -> label names
+	isResultString := func(f *ssa.Function) bool { return isMethod(f, metricsPkg, "ResultType", "String") }
+	isMapStrStr := func(t types.Type) bool {
+		m, ok := t.Underlying().(*types.Map)
+		return ok && types.Identical(m.Key(), types.Typ[types.String])
+	}
+	// by role: a sorted-keys function takes a map, collects its range keys and sorts them
+	sortedKeysFns := map[*ssa.Function]bool{}
+	for _, fn := range c.AllFuncs {
+		if core.RelPkg(fn) != mpkg || fn.Signature.Recv() != nil || fn.Signature.Params().Len() != 1 || fn.Signature.Results().Len() != 1 || !isMapStrStr(fn.Signature.Params().At(0).Type()) {
+			continue
+		}
+		sorts, keysOnly, appends := false, true, 0
+		for _, call := range an.AllCalls(fn) {
+			if an.IsFunc(an.Callee(call), "sort", "Strings") || an.IsFunc(an.Callee(call), "slices", "Sort") {
+				sorts = true
+			}
+			if an.IsBuiltinCall(call, "append") {
+				for _, e := range varargElems(call.Common().Args[1]) {
+					appends++
+					ex, ok := an.Strip(e).(*ssa.Extract)
+					if !ok || ex.Index != 1 {
+						keysOnly = false
+						continue
+					}
+					nx, ok := ex.Tuple.(*ssa.Next)
+					if !ok {
+						keysOnly = false
+						continue
+					}
+					rg, ok := nx.Iter.(*ssa.Range)
+					if !ok || an.Strip(rg.X) != ssa.Value(fn.Params[0]) {
+						keysOnly = false
+					}
+				}
+			}
+		}
+		if sorts && keysOnly && appends > 0 {
+			sortedKeysFns[fn] = true
+		}
+	}
+	stopAtKeys := func(f *ssa.Function) bool { return sortedKeysFns[f] || isResultString(f) }
+	// reordered: the slice is handed to something that may reorder or extend it
+	var reordered func(v ssa.Value, seen map[ssa.Value]bool) ssa.Instruction
+	reordered = func(v ssa.Value, seen map[ssa.Value]bool) ssa.Instruction {
+		if seen[v] {
+			return nil
+		}
+		seen[v] = true
+		for _, ref := range an.Referrers(v) {
+			switch x := ref.(type) {
+			case *ssa.ChangeType, *ssa.Convert, *ssa.MakeInterface, *ssa.Slice, *ssa.Phi:
+				if in := reordered(x.(ssa.Value), seen); in != nil {
+					return in
+				}
+			case *ssa.IndexAddr:
+				if len(an.StoresTo(x)) > 0 {
+					return x
+				}
+			case *ssa.Store:
+				// kept in a local variable (captured by a literal): follow its loads
+				if al, ok := x.Addr.(*ssa.Alloc); ok && x.Val == v {
+					for _, r2 := range an.Referrers(al) {
+						if ld, ok := r2.(*ssa.UnOp); ok {
+							if in := reordered(ld, seen); in != nil {
+								return in
+							}
+						}
+					}
+				}
+			case ssa.CallInstruction:
+				if an.IsBuiltinCall(x, "append") {
+					if len(x.Common().Args) > 0 && x.Common().Args[0] == v {
+						return x
+					}
+					continue
+				}
+				if an.IsBuiltinCall(x, "len") || an.IsBuiltinCall(x, "cap") {
+					continue
+				}
+				if t := an.Callee(x); t != nil && (t.Name() == "NewSummaryVec" || core.InModule(t)) {
+					continue // module helpers are looked into by Resolve; the vector constructor copies the names
+				}
+				return x
+			}
+		}
+		return nil
+	}
 	rule(r, "C16.R1", "label names and label values agree position by position for every vector; static keys and values derive from the same sorted key list", func() {
-		bm := c.MustFn(mpkg, "buildMetrics")
-		var keysCall ssa.Value
+		// the builder: the function of the metrics package that constructs the summary vectors
+		var bm *ssa.Function
+		for _, fn := range c.AllFuncs {
+			if core.RelPkg(fn) != mpkg {
+				continue
+			}
+			for _, call := range an.AllCalls(fn) {
+				if t := an.Callee(call); t != nil && t.Name() == "NewSummaryVec" {
+					bm = fn
+				}
+			}
+		}
+		if bm == nil {
+			panic(core.AnchorError{What: "the function of internal/metrics that builds the summary vectors"})
+		}
+		var bmMap *ssa.Parameter
+		for _, p := range bm.Params {
+			if isMapStrStr(p.Type()) {
+				bmMap = p
+			}
+		}
 		for _, ret := range an.Returns(bm) {
 			lit := an.StructLiteralOf(ret.Results[0])
 			if lit == nil {
-				r.Undecided("buildMetrics#literal", an.Pos(c, ret), "Metrics is not built as a literal")
+				r.Undecided(bm.Name()+"#literal", an.Pos(c, ret), "Metrics is not built as a literal")
 				return
 			}
 			for f, v := range an.LiteralFields(lit) {
@@ -83,14 +320,14 @@ func c16(c *core.Ctx, r *core.Report) {
 				if !ok || an.Callee(call) == nil || an.Callee(call).Name() != "NewSummaryVec" {
 					continue
 				}
-				elems, tail, ok := sliceLitPlus(call.Call.Args[1])
+				elems, tail, ok := sliceLitPlusFV(an.RootFV(bm, call.Call.Args[1]), stopAtKeys)
 				if !ok {
 					r.Undecided("buildMetrics#"+f, an.Pos(c, call), "label names of %s are not `append([]string{…}, keys...)`", f)
 					continue
 				}
 				var ns []string
 				for _, e := range elems {
-					k, isK := e.(*ssa.Const)
+					k, isK := e.V.(*ssa.Const)
 					if !isK {
 						r.Undecided("buildMetrics#"+f, an.Pos(c, call), "non-constant label name")
 						return
@@ -98,35 +335,47 @@ func c16(c *core.Ctx, r *core.Report) {
 					ns = append(ns, constant.StringVal(k.Value))
 				}
 				names[f] = ns
-				if keysCall == nil {
-					keysCall = tail
+				// the static names: the untouched result of a sorted-keys function applied to the builder's map
+				kv, trace := an.FV{V: tail.V, F: tail.F}.ResolveTrace(stopAtKeys)
+				kc, isCall := kv.V.(*ssa.Call)
+				okKeys := isCall && sortedKeysFns[an.Callee(kc)] && bmMap != nil && an.FV{V: kc.Call.Args[0], F: kv.F}.Resolve(stopAtKeys).V == ssa.Value(bmMap)
+				r.Check(okKeys, "buildMetrics#"+f+"-static-keys", an.Pos(c, call), "names = "+strings.Join(ns, ",")+" + sorted keys of the static label map", "the static label names of "+f+" are "+an.D().Of(tail.V)+", not the sorted keys of the static label map")
+				if okKeys {
+					for _, link := range append(trace, kv) {
+						if in := reordered(link.V, map[ssa.Value]bool{}); in != nil {
+							r.Violation("static-keys#reordered", an.Pos(c, in), "the sorted key list is passed on (%T) before it becomes the label names: if it is re-ordered or extended here the names no longer line up with the values, which are taken in sorted-key order", in)
+						}
+					}
 				}
-				td := an.D().Of(tail)
-				r.Check(tail == keysCall && strings.HasSuffix(td, "getStaticMetricLabelKeys($staticMetrics)"), "buildMetrics#"+f+"-static-keys", an.Pos(c, call), "names = "+strings.Join(ns, ",")+" + sorted static keys", "the static label names of "+f+" are "+td)
 			}
 		}
 		if !r.Floor("summary vectors", len(names), 2) {
 			return
 		}
-		// value sites
+		// value sites, seen from the exported recorders (through helpers)
 		nSites := 0
+		stageConst := labelConst("IterationStage")
+		var valsField *types.Var
 		for _, fn := range c.AllFuncs {
-			if core.RelPkg(fn) != mpkg {
+			if core.RelPkg(fn) != mpkg || fn.Parent() != nil || !isMethod(fn, metricsPkg, "Metrics", fn.Name()) || !fn.Object().Exported() {
 				continue
 			}
-			for _, call := range an.AllCalls(fn) {
-				t := an.Callee(call)
-				if t == nil || t.Name() != "WithLabelValues" {
-					continue
+			var strParams []*ssa.Parameter
+			for _, p := range fn.Params[1:] {
+				if types.Identical(p.Type(), types.Typ[types.String]) {
+					strParams = append(strParams, p)
 				}
+			}
+			for _, e := range an.FlatCalls(fn, flatDepth, func(_ ssa.CallInstruction, t *ssa.Function) bool { return t != nil && t.Name() == "WithLabelValues" }) {
+				call := e.Call()
 				nSites++
-				fld, _ := an.TerminalField(call.Common().Args[0])
+				fld, _ := an.TerminalField(an.EventFV(e, call.Common().Args[0]).Resolve(nil).V)
 				key := core.FuncName(fn) + "#WithLabelValues"
 				if fld == nil || names[fld.Name()] == nil {
 					r.Undecided(key, an.Pos(c, call), "cannot tell which vector is observed")
 					continue
 				}
-				elems, tail, ok := sliceLitPlus(call.Common().Args[1])
+				elems, tail, ok := sliceLitPlusFV(an.EventFV(e, call.Common().Args[1]), isResultString)
 				if !ok {
 					r.Undecided(key, an.Pos(c, call), "label values are not `append([]string{…}, static...)`")
 					continue
@@ -137,26 +386,38 @@ func c16(c *core.Ctx, r *core.Report) {
 					continue
 				}
 				okAll := true
-				for i, e := range elems {
-					d := an.D().Of(e)
+				for i, el := range elems {
+					el = el.Resolve(isResultString)
 					role := ""
-					switch {
-					case d == "$name":
-						role = testL
-					case strings.HasSuffix(d, "ResultType).String($result)"):
-						role = resultL
-					case d == "$stage" || d == "\""+labelConst("IterationStage")+"\"":
-						role = stageL
+					switch x := el.V.(type) {
+					case *ssa.Const:
+						if x.Value != nil && x.Value.Kind() == constant.String && constant.StringVal(x.Value) == stageConst {
+							role = stageL
+						}
+					case *ssa.Parameter:
+						if x.Parent() == fn && len(strParams) > 0 && x == strParams[0] {
+							role = testL // by convention of the recorders' signatures: the first string is the scenario name
+						} else if x.Parent() == fn && len(strParams) > 1 && x == strParams[1] {
+							role = stageL
+						}
+					case *ssa.Call:
+						if isResultString(an.Callee(x)) {
+							if p, ok := (an.FV{V: x.Call.Args[0], F: el.F}).Resolve(isResultString).V.(*ssa.Parameter); ok && p.Parent() == fn {
+								role = resultL
+							}
+						}
 					}
 					if role != ns[i] {
 						okAll = false
-						r.Violation(key+"#pos"+itoa(i), an.Pos(c, call), "label %q of %s receives %s (a %q value): series carry swapped labels", ns[i], fld.Name(), d, role)
+						r.Violation(key+"#pos"+itoa(i), an.Pos(c, call), "label %q of %s receives %s (a %q value): series carry swapped labels", ns[i], fld.Name(), an.D().Of(el.V), role)
 					}
 				}
-				td := an.D().Of(tail)
-				if td != "$metrics.staticMetricLabelValues" {
+				tf, owner := an.TerminalField(tail.V)
+				if tf == nil || !an.IsNamed(owner, metricsPkg, "Metrics") || (valsField != nil && !an.SameField(tf, valsField)) {
 					okAll = false
-					r.Violation(key+"#static", an.Pos(c, call), "the static label values appended are %s, not the values computed from the sorted keys", td)
+					r.Violation(key+"#static", an.Pos(c, call), "the static label values appended are %s, not the values computed from the sorted keys", an.D().Of(tail.V))
+				} else {
+					valsField = tf
 				}
 				if okAll {
 					r.OK(key, an.Pos(c, call), "%s: values (%d fixed + static) match names %v position by position", fld.Name(), len(elems), ns)
@@ -164,78 +425,48 @@ func c16(c *core.Ctx, r *core.Report) {
 			}
 		}
 		r.Floor("WithLabelValues sites", nSites, 3)
-		// the static values field is computed from the same map as the keys
-		ni := c.MustFn(mpkg, "NewInstance")
-		okVals := false
-		an.Instrs(ni, func(in ssa.Instruction) {
-			st, ok := in.(*ssa.Store)
-			if !ok {
-				return
-			}
-			if f := an.FieldOfAddr(st.Addr); f != nil && f.Name() == "staticMetricLabelValues" {
-				d := an.D().Of(st.Val)
-				okVals = strings.HasSuffix(d, "getStaticMetricLabelValues($staticMetrics)")
-				var mapArg string
-				for _, call := range an.AllCalls(ni) {
-					if t := an.Callee(call); t != nil && t.Name() == "buildMetrics" {
-						mapArg = an.D().Of(call.Common().Args[0])
-					}
-				}
-				okVals = okVals && mapArg == "$staticMetrics"
-				r.Check(okVals, "NewInstance#static-values", an.Pos(c, in), "values computed from the same map the names were built from", "static label values come from "+d+" while the names were built from "+mapArg)
-			}
-		})
-		if !okVals {
-			r.Violation("NewInstance#static-values-set", c.Pos(ni.Pos()), "staticMetricLabelValues is not computed from the static label map")
+		if valsField == nil {
+			r.Violation("static-values#field", "-", "no recorder appends the static label values")
+			return
 		}
-		// keys: exactly sortedKeys(m), untouched afterwards
-		gk := c.MustFn(mpkg, "getStaticMetricLabelKeys")
-		sk := c.MustFn(mpkg, "sortedKeys")
-		for _, ret := range an.Returns(gk) {
-			call, ok := an.Strip(ret.Results[0]).(*ssa.Call)
-			okk := ok && an.Callee(call) == sk && an.D().Of(call.Call.Args[0]) == "$staticMetrics"
-			if okk {
-				for _, ref := range an.Referrers(call) {
-					if _, isRet := ref.(*ssa.Return); !isRet {
-						okk = false
-						r.Violation("getStaticMetricLabelKeys#reordered", an.Pos(c, ref), "the sorted key list is passed on (%T) before being returned: if it is re-ordered here the names no longer line up with the values, which are taken in sortedKeys order", ref)
-					}
-				}
-			}
-			r.Check(okk, "getStaticMetricLabelKeys", an.Pos(c, ret), "label names are exactly sortedKeys(map)", "label names are "+an.D().Of(ret.Results[0])+", not the untouched result of sortedKeys(map)")
-		}
-		gv := c.MustFn(mpkg, "getStaticMetricLabelValues")
-		okElem := false
-		for _, call := range an.AllCalls(gv) {
-			if !an.IsBuiltinCall(call, "append") {
+		// the static values field is computed by a values function from the same map as the names
+		nStores := 0
+		for _, fn := range c.AllFuncs {
+			if !core.InModule(fn) {
 				continue
 			}
-			var ed string
-			if sl, ok := call.Common().Args[1].(*ssa.Slice); ok {
-				if al, ok := sl.X.(*ssa.Alloc); ok {
-					for _, ref := range an.Referrers(al) {
-						if ia, ok := ref.(*ssa.IndexAddr); ok {
-							for _, st := range an.StoresTo(ia) {
-								ed = an.D().Of(st.Val)
-							}
-						}
-					}
+			an.Instrs(fn, func(in ssa.Instruction) {
+				st, ok := in.(*ssa.Store)
+				if !ok {
+					return
 				}
-			}
-			okElem = strings.HasPrefix(ed, "$staticMetrics[internal/metrics.sortedKeys($staticMetrics)[")
-			r.Check(okElem, "getStaticMetricLabelValues#element", an.Pos(c, call), "values are map[key] for key ranging over sortedKeys(map)", "label values are collected as "+ed+", not as map[key] in sortedKeys order: values are attached to the wrong label names (map iteration order is random)")
+				f := an.FieldOfAddr(st.Addr)
+				if f == nil || !an.SameField(f, valsField) {
+					return
+				}
+				nStores++
+				key := core.FuncName(fn) + "#static-values"
+				vc, isCall := an.Strip(st.Val).(*ssa.Call)
+				vf := an.Callee(vc)
+				if !isCall || vf == nil || !core.InModule(vf) || len(vc.Call.Args) != 1 {
+					r.Violation(key, an.Pos(c, in), "static label values are %s, not computed from the static label map by a function walking its sorted keys", an.D().Of(st.Val))
+					return
+				}
+				builds := an.FlatCalls(fn, flatDepth, func(_ ssa.CallInstruction, t *ssa.Function) bool { return t == bm })
+				if len(builds) != 1 || bmMap == nil {
+					r.Undecided(key, an.Pos(c, in), "cannot relate the map the values are computed from to the map the names were built from (%d builder calls here)", len(builds))
+					return
+				}
+				mapOfNames := an.EventFV(builds[0], builds[0].Call().Common().Args[an.ParamIndex(bmMap)]).Resolve(nil).V
+				mapOfVals := an.Strip(vc.Call.Args[0])
+				r.Check(mapOfNames == mapOfVals, key, an.Pos(c, in), "values computed from the same map the names were built from", "static label values come from "+an.D().Of(vc)+" while the names were built from "+an.D().Of(mapOfNames))
+				// the values function walks the sorted keys of its map and collects map[key] in that order
+				okV, why := valuesFollowSortedKeys(vf, sortedKeysFns)
+				r.Check(okV, core.FuncName(vf)+"#element", c.Pos(vf.Pos()), "values are map[key] for key ranging over the sorted keys of the same map, in that order", "label values are "+why+": values are attached to the wrong label names (map iteration order is random)")
+			})
 		}
-		if !okElem {
-			r.Violation("getStaticMetricLabelValues#shape", c.Pos(gv.Pos()), "values are not collected by walking sortedKeys(map)")
-		}
-		// sortedKeys sorts
-		sorts := false
-		for _, call := range an.AllCalls(sk) {
-			if an.IsFunc(an.Callee(call), "sort", "Strings") || an.IsFunc(an.Callee(call), "slices", "Sort") {
-				sorts = true
-			}
-		}
-		r.Check(sorts, "sortedKeys#sorts", c.Pos(sk.Pos()), "sortedKeys sorts the collected keys", "sortedKeys does not sort: two calls can return different orders")
+		r.Check(nStores > 0, "static-values#set", "-", "the static label values are computed at construction", "the static label values are never computed from the static label map")
+		r.Floor("sorted-keys functions", len(sortedKeysFns), 1)
 	})
 
 	rule(r, "C16.R2", "the setup metric receives exactly one sample on every path of Setup (also when setup panics), labelled metrics.Result(T.Failed()) read after the recovered setup call", func() {
@@ -320,7 +551,7 @@ func c16(c *core.Ctx, r *core.Report) {
 				r.Check(okk, core.FuncName(fn)+"#observe", an.Pos(c, call), "series resolved through the vector at observation time", "the observer used is "+an.D().Of(call.Common().Value)+", not looked up from the vector now: after Metrics.Reset (next run in the same process) the cached series is detached and its samples are no longer exported")
 			}
 		}
-		r.Floor("Observe sites", n, 3)
+		r.Floor("Observe sites", n, 2)
 	})
 
 	rule(r, "C16.R4", "one iteration-metric sample per iteration / drop with the same outcome as the statistics (C01.R1, C01.R2); RecordIterationResult observes exactly once unless iteration metrics are disabled", func() {
@@ -342,38 +573,41 @@ func c16(c *core.Ctx, r *core.Report) {
 			}
 		}
 		r.Floor("recording obligations", n, 4)
+		isObserve := func(call ssa.CallInstruction, _ *ssa.Function) bool {
+			return call.Common().IsInvoke() && call.Common().Method.Name() == "Observe"
+		}
 		for _, name := range []string{"Metrics.RecordIterationResult", "Metrics.RecordIterationStage"} {
 			fn := c.MustFn(mpkg, name)
-			w := func(in ssa.Instruction) an.Interval {
-				if call, ok := in.(ssa.CallInstruction); ok && call.Common().IsInvoke() && call.Common().Method.Name() == "Observe" {
-					return an.Interval{Lo: 1, Hi: 1}
+			// at most one sample on every path (through helpers) …
+			tot, ok := an.Total(an.PathCount(fn, an.CallWeight(isObserve, flatDepth)), false)
+			r.Check(ok && tot.Hi <= 1, name+"#at-most-one", c.Pos(fn.Pos()), "at most one Observe per call", name+" observes "+tot.String()+" samples per call")
+			// … and the only condition under which it is not taken is the disabled flag
+			obs := an.FlatCalls(fn, flatDepth, isObserve)
+			r.Check(len(obs) == 1, name+"#observe-site", c.Pos(fn.Pos()), "one Observe site", sprintf("%d Observe sites under %s", len(obs), name))
+			for _, e := range obs {
+				var foreign []string
+				for _, g := range an.GuardsOfEvent(e) {
+					fld, _ := an.TerminalField(g.Cond)
+					if fld != nil && fld.Name() == "IterationMetricsEnabled" && g.Polarity {
+						continue
+					}
+					foreign = append(foreign, sprintf("%s=%v", an.D().Of(g.Cond), g.Polarity))
 				}
-				return an.Interval{}
-			}
-			for i, e := range an.PathCount(fn, w) {
-				ret, isRet := e.Instr.(*ssa.Return)
-				if !isRet {
-					continue
-				}
-				key := sprintf("%s#exit%d", name, i+1)
-				if e.Count.Lo == 1 && e.Count.Hi == 1 {
-					r.OK(key, an.Pos(c, ret), "one Observe")
-					continue
-				}
-				disabled := false
-				for _, g := range an.GuardsOf(ret.Block()) {
-					if strings.HasSuffix(an.D().Of(g.Cond), ".IterationMetricsEnabled") && !g.Polarity {
-						disabled = true
+				inLoop := false
+				for ev, fr := e.Instr, e.Frame; fr != nil; fr = fr.Parent {
+					if an.InLoop(ev) {
+						inLoop = true
+					}
+					if fr.Parent != nil {
+						ev = fr.Site
 					}
 				}
-				r.Check(disabled && e.Count.Hi == 0, key, an.Pos(c, ret), "no sample only when iteration metrics are disabled", name+" returns having observed "+e.Count.String()+" samples although iteration metrics are enabled")
-			}
-			// the value observed is the duration parameter
-			for _, call := range an.AllCalls(fn) {
-				if call.Common().IsInvoke() && call.Common().Method.Name() == "Observe" {
-					d := an.D().Of(call.Common().Args[0])
-					r.Check(d == "$nanoseconds", name+"#value", an.Pos(c, call), "observes the duration parameter", "observes "+d+" instead of the duration it was given")
-				}
+				r.Check(len(foreign) == 0 && !inLoop, name+"#always-unless-disabled", an.Pos(c, e.Instr), "the sample is skipped only when iteration metrics are disabled", name+sprintf(" skips or repeats the sample under %v (in loop: %v) although iteration metrics are enabled", foreign, inLoop))
+				// the value observed is the duration parameter
+				v := an.EventFV(e, e.Call().Common().Args[0]).Resolve(nil).V
+				p, isP := v.(*ssa.Parameter)
+				okDur := isP && p.Parent() == fn && p == fn.Params[len(fn.Params)-1]
+				r.Check(okDur, name+"#value", an.Pos(c, e.Instr), "observes the duration parameter", "observes "+an.D().Of(v)+" instead of the duration it was given")
 			}
 		}
 	})
